@@ -198,6 +198,14 @@ func (m *monC16) Finish(rc *RunCtx) {
 			}
 		}
 	}
+	for i := 1; i < len(sc.Rotation); i++ {
+		if isPerennial(sc.Rotation[i].Crop) && sc.Rotation[i].Sow.Zeit() < end {
+			rc.Cov("rotation_entries_permanent_crop", 1)
+			if i+1 < len(sc.Rotation) && sc.Rotation[i+1].Crop == sc.Rotation[i].Crop {
+				rc.Cov("permanent_crop_followed_by_itself", 1)
+			}
+		}
+	}
 	rc.Cov(fmt.Sprintf("runs_switches_sow%d_harv%d_irr%d_fert%d", onoff(sc.AutoSow), onoff(sc.AutoHarvest), onoff(sc.AutoIrr), onoff(sc.AutoFert)), 1)
 	rc.Cov("n_substeps_with_automatic_n", int64(m.autoNSteps))
 	rc.Res.NonTrivial = rc.Res.Days > 30 && (sc.AutoSow || sc.AutoHarvest || sc.AutoIrr || sc.AutoFert) && len(sow) > 0
@@ -322,7 +330,7 @@ func runC16Case(tier string, seed uint64, idx int, keepDir string) *CaseResult {
 func init() {
 	caseRunners["C16"] = runC16Case
 	simProps["C16"] = simProp{checkSpec{Prop: "C16", Level: "exploration", NQuick: 2000, NThorough: 40000,
-		Rule:   "cases = generated rotations of the shipped annual crops whose sowing windows open after the latest harvest date of the preceding crop, random automatic-management tables (windows, triggers, stage windows, daily maxima, N demands, organic fertiliser), the four automation switches drawn independently (20% of the cases fully manual), all weather; sowing / harvest days from the management event log are checked against windows, latest dates and fixed dates, every automatic irrigation against stage window and daily maximum at the moment it is applied, automatic N applications for sign; every fourth case is first run as a probe and then rewritten around what was observed: the latest harvest date of the first crop 0-2 days after the day the trigger harvested it and a fixed sowing date of the following crop 1-3 days after that latest date; non-trivial = >30 days, at least one switch on and at least one sowing",
-		Floors: []string{"sowings_triggered_inside_window", "sowings_forced_at_window_end", "sowings_fixed_date", "harvests_triggered_before_latest_date", "harvests_forced_at_latest_date", "harvests_fixed_date", "auto_irrigations", "auto_n_applications", "crop_records_checked", "cases_fixed_sowing_right_after_observed_harvest"}},
+		Rule:   "cases = generated rotations of the shipped annual crops and (8 % of the entries) the shipped permanent crops grass / alfalfa, a permanent crop mostly followed by itself, whose sowing windows open after the latest harvest date of the preceding crop, random automatic-management tables (windows, triggers, stage windows, daily maxima, N demands, organic fertiliser), the four automation switches drawn independently (20% of the cases fully manual), all weather; sowing / harvest days from the management event log are checked against windows, latest dates and fixed dates, every automatic irrigation against stage window and daily maximum at the moment it is applied, automatic N applications for sign; every fourth case is first run as a probe and then rewritten around what was observed: the latest harvest date of the first crop 0-2 days after the day the trigger harvested it and a fixed sowing date of the following crop 1-3 days after that latest date; non-trivial = >30 days, at least one switch on and at least one sowing",
+		Floors: []string{"sowings_triggered_inside_window", "sowings_forced_at_window_end", "sowings_fixed_date", "harvests_triggered_before_latest_date", "harvests_forced_at_latest_date", "harvests_fixed_date", "auto_irrigations", "auto_n_applications", "crop_records_checked", "cases_fixed_sowing_right_after_observed_harvest", "permanent_crop_followed_by_itself"}},
 		func() []Monitor { return []Monitor{&monC16{}} }}
 }
